@@ -375,7 +375,7 @@ Proof.
     + rewrite (IH fs sys (S i)).
       * destruct (first_idx sys t) as [k|]; cbn [option_map]; [|reflexivity].
         rewrite Nat.add_succ_r. reflexivity.
-      * intros k b Hk. rewrite <- Nat.add_succ_r. apply H. exact Hk.
+      * intros k b Hk. replace (S i + k)%nat with (i + S k)%nat by lia. apply H. exact Hk.
 Qed.
 
 Lemma find_entry_gnss : forall ver hw use_ bs sys, (0 <= sys <= 7)%Z ->
@@ -486,7 +486,7 @@ Proof.
   - destruct (H O a eq_refl) as [Ht [Hx [Hy Hz]]]. rewrite Nat.add_0_r in Ht, Hx, Hy, Hz.
     rewrite Ht. cbn [bind]. destruct (l_type a =? t) eqn:E.
     + rewrite Hx, Hy, Hz. reflexivity.
-    + apply IH. intros k b Hk. rewrite <- Nat.add_succ_r. apply H. exact Hk.
+    + apply IH. intros k b Hk. replace (S i + k)%nat with (i + S k)%nat by lia. apply H. exact Hk.
 Qed.
 
 Theorem lever_first : forall ver l t,
